@@ -136,6 +136,19 @@ def enc(v, top: bool = True) -> str:
     raise TypeError(f"cannot encode {type(v)}")
 
 
+def has_huge_int(v, _lim=10 ** 4300) -> bool:
+    """an integer anywhere in the value that CPython's int -> str conversion refuses (more than 4300 digits)"""
+    if isinstance(v, bool):
+        return False
+    if isinstance(v, int):
+        return abs(v) >= _lim
+    if isinstance(v, dict):
+        return any(has_huge_int(x) for x in v.values())
+    if isinstance(v, (list, tuple)):
+        return any(has_huge_int(x) for x in v)
+    return False
+
+
 def label(k) -> str:
     """a printable, total label for a dict index (indexes of in-memory signature maps need not be strings)"""
     try:
